@@ -129,6 +129,24 @@ CHECKS = {
             'ranges; MATCH is compared with a reference on every sorted array of length <= 5/6 over a 5-value pool and '
             'every text array over a wildcard-bearing pool.',
             'Trusted: reference reading of one-dimensional INDEX forms (either axis accepted).', 'DESIGN.md §5 C18'),
+    'C01': ('exhaustive enumeration of token soups, code points, function x arity x typed-argument tuples, truncations, and '
+            'of all placements of callback faults (fault enumeration), each parse executed under a deterministic '
+            'line-event step budget; ' + K3,
+            'All concatenations of <= 3/4 lexemes from an alphabet with one exemplar per lexer token class, every Unicode '
+            'code point in five contexts, every documented function at arities 0..3/4 over a pool holding a value of every '
+            'type, every prefix/suffix/deletion of a corpus, and every placement of <= 1/2 misbehaving callbacks (17 '
+            'exception kinds, 10 odd return values) over every callback invocation of 14 templates are parsed; the record '
+            'must be well-formed and the call must finish within 200 000 interpreter line events.',
+            'Trusted: sys.monitoring line/jump events as the measure of "bounded time" (C-level loops are outside it; '
+            'magnitudes are capped at 1000 so none is reachable).', 'DESIGN.md §5 C01'),
+    'C17': ('exhaustive enumeration of number pools x digits / significances, boundary-exhaustive 40-bit hex sweeps, all '
+            '(n, radix) pairs of the bound, all 1..3999 x ROMAN forms, under a deterministic step budget; ' + K3,
+            'Characterising inequalities are checked in exact rationals on every (number, digits) / (number, significance) '
+            'pair of the pools; HEX2DEC(DEC2HEX(n)) on every n within 2^12/2^16 of -2^39, 0, 2^39 and all one/two-digit '
+            'patterns; DECIMAL(BASE(n,r),r) for every radix 2..36 x n <= 500/5000 and digit-length boundaries; every Roman '
+            'form of every n; out-of-range arguments must give an error within the step budget.',
+            'Trusted: Fraction arithmetic, two independent Roman evaluators. The 2^40 hex range is boundary-exhaustive '
+            'only.', 'DESIGN.md §5 C17'),
 }
 
 NOT_YET = 'check not built yet in this session (see DESIGN.md §5 for the planned bounded-exhaustive check)'
